@@ -4,7 +4,7 @@
 
 /*@unit
 name: ctx_lookup
-define: U_LOOKUP, VERIF_OWN_STRCMP, VERIF_OWN_STRCHR, VERIF_CONF_REBIND
+define: U_LOOKUP, VERIF_CONF_ANNOT, VERIF_OWN_STRCMP, VERIF_OWN_STRCHR, VERIF_CONF_REBIND
 src: conf.c
 enforce: v_ctx_lookup
 backend: sat
@@ -13,7 +13,7 @@ timeout: 200
 */
 /*@unit
 name: parse_line
-define: U_PARSE_LINE, VERIF_OWN_STRCMP, VERIF_OWN_STRCHR, VERIF_CONF_REBIND, VERIF_ROLE_CALLEE_register_context_state
+define: U_PARSE_LINE, VERIF_CONF_ANNOT, VERIF_OWN_STRCMP, VERIF_OWN_STRCHR, VERIF_CONF_REBIND, VERIF_ROLE_CALLEE_register_context_state
 src: conf.c
 enforce: spifconf_parse_line
 replace: spiftool_chomp, spiftool_get_word, spiftool_get_pword, spifconf_shell_expand, spifconf_open_file, spiftool_temp_file, spifconf_register_context_state, spifconf_register_fstate, v_ctx_lookup
